@@ -655,9 +655,16 @@ CHECKS['C16'] = C16()
 def gen_emit(ft, node: int) -> list:
     ops = []
     n = ft.weighted([2, 3, 3, 2, 1, 1])
+    last_tok = {}
     for i in range(n):
         tok = f'tok{node}x{i}'
         k = ft.weighted([4, 3, 2, 2, 2, 1])
+        kind = {0: 'log', 1: 'print', 2: 'err', 5: 'out'}.get(k)
+        if kind in ('log', 'print', 'err') and kind in last_tok and ft.chance(1, 4):
+            # the very same text again (a status line printed repeatedly): each copy is due
+            tok = last_tok[kind]
+        if kind is not None:
+            last_tok[kind] = tok
         if k == 0:
             ops.append(['log', ft.pick(['info', 'warning', 'error']), tok])
         elif k == 1:
@@ -670,6 +677,9 @@ def gen_emit(ft, node: int) -> list:
             ops.append(['flush_err'])
         else:
             ops.append(['out', 'part-' + tok])      # output that is never newline-terminated
+    if ft.chance(1, 40):
+        # a chatty task: many records between two polls of the coordinator
+        ops.append(['burst', ft.pick([300, 1100, 2300])])
     if ft.chance(1, 6):
         ops.append(['die'])                         # the task's process dies right after (os._exit / SIGKILL)
     return ops
@@ -694,24 +704,43 @@ def check_C19(sc, out, facts) -> list:
         if kind in ('print', 'out', 'err'):
             want = 'flush_err' if kind == 'err' else 'flush_out'
             flushed_after[idx] = any(e2[1] == node and e2[2] == want for _i2, e2 in emits[pos + 1:])
+    seen_tok = set()
     for idx, e in emits:
         node, kind, payload = e[1], e[2], e[3]
+        if kind == 'burst':
+            # payload records, each with its own token, in order
+            got = [m for m in delivered if m.startswith(f'bst{node}x')]
+            want = [f'bst{node}x{j}x' for j in range(payload)]
+            if got != want:
+                missing = len(set(want) - set(got))
+                dup = len(got) - len(set(got))
+                code = 'lost' if missing else ('duplicated' if dup else 'reordered')
+                vs.append(O.V('C19', code, f'burst of {payload} logger records of node {node}: {len(got)} delivered, {missing} missing, '
+                              f'{dup} duplicated' + ('' if missing or dup else ', out of order'), kind='logger-burst'))
+            continue
         if kind in ('flush_out', 'flush_err', 'die') or payload is None:
             continue
         tok = payload.strip()
         if kind == 'out':
             tok = tok[len('part-'):]
+        if tok in seen_tok:
+            continue
+        seen_tok.add(tok)
+        # the same text may have been written several times: every copy is due
+        same = [(i2, e2) for i2, e2 in emits if e2[2] == kind and e2[3] is not None and e2[1] == node
+                and (e2[3].strip()[len('part-'):] if kind == 'out' else e2[3].strip()) == tok]
+        written = len(same)
         count = sum(m.count(tok) for m in delivered)
         # everything a task wrote is due by the time run_tasks returns (a last fragment without a newline
         # included); for a task that died only what had left its process
-        required = True
+        required = written
         if node in died and kind != 'log':
-            required = flushed_after.get(idx, False)
-        if count > 1:
-            vs.append(O.V('C19', 'duplicated', f'{kind} message {tok} of node {node} was delivered {count} times', kind=kind))
-        elif count == 0 and required:
+            required = sum(1 for i2, _e2 in same if flushed_after.get(i2, False))
+        if count > written:
+            vs.append(O.V('C19', 'duplicated', f'{kind} message {tok} of node {node} was written {written} time(s) and delivered {count} times', kind=kind))
+        elif count < required:
             in_late = any(tok in m for m in late)
-            vs.append(O.V('C19', 'lost', f'{kind} message {tok} of node {node} was not delivered before run_tasks returned'
+            vs.append(O.V('C19', 'lost', f'{kind} message {tok} of node {node} was written {written} time(s), {count} delivered before run_tasks returned'
                           + (' (it arrived later)' if in_late else '') +
                           f'; node finished {"last" if last_end and last_end[1] == node else "earlier"}',
                           kind=('logger' if kind == 'log' else ('fragment' if kind == 'out' else 'stream')),
@@ -787,13 +816,15 @@ def _c19_batch_extra(self, tier):
                 vs.append(O.V('C19', 'real-probe-failed', f'real {backend} run failed: {p.stderr[-300:]}', backend=backend))
                 continue
             n += 1
-            counts = json.loads(line[0][9:])['counts']
+            info = json.loads(line[0][9:])
+            counts = info['counts']
+            expected = info.get('expected') or {t: 1 for t in counts}
             samples.append({'real_backend': backend, 'delivered_counts': counts})
-            lost = sorted(t for t, c in counts.items() if c == 0)
-            dup = sorted(t for t, c in counts.items() if c > 1)
+            lost = sorted(f'{t} ({c} of {expected[t]})' for t, c in counts.items() if c < expected[t])
+            dup = sorted(f'{t} ({c} of {expected[t]})' for t, c in counts.items() if c > expected[t])
             if lost:
                 vs.append(O.V('C19', 'real-lost', f'real {backend} backend: messages {lost} were not delivered before run_tasks returned',
-                              backend=backend, last_finisher=any(t[3] == '3' for t in lost)))
+                              backend=backend, last_finisher=any(t[3:4] == '3' for t in lost)))
             if dup:
                 vs.append(O.V('C19', 'real-duplicated', f'real {backend} backend: messages {dup} were delivered more than once', backend=backend))
     return vs, {'real_log_runs': n, 'real_log_samples': samples[:2]}
@@ -849,17 +880,20 @@ def phase2_main() -> int:
 class C06(Check):
     id = 'C06'
     quick_runs = 1200
-    expected_probes = ('fresh-interpreter', 'cross-backend', 'real-clock-first-run', 'bust-then-hit')
+    expected_probes = ('fresh-interpreter', 'cross-backend', 'real-clock-first-run', 'bust-then-hit', 'zero-duration-recorded')
     rule = ('distinct (specification digest, first-run schedule digest, second-run backend) histories of first run / second run '
             '(/ third run in a fresh interpreter with another hash seed); non-trivial = at least one cacheable task was loaded in the second run')
 
     def gen(self, ch, tier):
         sc = gen_scenario(ch, backends=ALL_BACKENDS, cache='never',
-                          types=[('TA', 4), ('TB', 2), ('TC', 2), ('TD', 3), ('TN', 2), ('TP', 2)])
+                          types=[('TA', 4), ('TB', 2), ('TC', 2), ('TD', 3), ('TN', 2), ('TP', 2), ('TZ', 1)])
         sc['gen_main'] = 1
         cfg = ch.stream('config')
         if sc['backend'] in ('serial', 'sim') and cfg.chance(1, 4):
             sc['real_clock'] = True
+        elif cfg.chance(1, 3):
+            # a clock whose resolution is above the running time of a task: recorded durations of zero
+            sc['coarse_clock'] = True
         return sc
 
     def run(self, ch, workdir, tier):
@@ -901,6 +935,8 @@ class C06(Check):
                     probes['cross-backend'] = 1
                 if sc1.get('real_clock'):
                     probes['real-clock-first-run'] = 1
+                if any(m[1] == 0 for m in metas1.values()):
+                    probes['zero-duration-recorded'] = 1
                 if not vs and cfg.chance(1, 3):
                     # history continues in the same interpreter: re-execution with bust_cache replaces the
                     # entries (values and metadata of a new generation), and a later hit must return those
